@@ -40,6 +40,14 @@ namespace AState
   unfold notifyEarly; split <;> rfl
 @[simp] theorem notifyEarly_phase (w) (s : AState) : (s.notifyEarly w).phase = s.phase := by
   unfold notifyEarly; split <;> rfl
+@[simp] theorem refreshTimers_chan (w) (s : AState) : (s.refreshTimers w).chan = s.chan := by
+  unfold refreshTimers; split <;> rfl
+@[simp] theorem refreshTimers_ops (w) (s : AState) : (s.refreshTimers w).ops = s.ops := by
+  unfold refreshTimers; split <;> rfl
+@[simp] theorem refreshTimers_cfg (w) (s : AState) : (s.refreshTimers w).cfg = s.cfg := by
+  unfold refreshTimers; split <;> rfl
+@[simp] theorem refreshTimers_phase (w) (s : AState) : (s.refreshTimers w).phase = s.phase := by
+  unfold refreshTimers; split <;> rfl
 @[simp] theorem toStopping_chan (s : AState) : s.toStopping.chan = s.chan := rfl
 @[simp] theorem toStopping_ops (s : AState) : s.toStopping.ops = s.ops := rfl
 @[simp] theorem toStopping_cfg (s : AState) : s.toStopping.cfg = s.cfg := rfl
